@@ -16,7 +16,9 @@ using GM = STPGraphManager<SafeInt>;
 using Solver = STPSolver<SafeInt>;
 
 #define NV 3            // vertices
+#ifndef NE
 #define NE 6            // edges in the store: atom a = edge 2a, its negation = edge 2a+1
+#endif
 #ifndef NOPS
 #define NOPS 5
 #endif
@@ -58,7 +60,9 @@ template <class V, class T> static void point(V & v, T * buf, size_t n, size_t c
 static unsigned e_from[NE], e_to[NE];
 static PtAsgn lit_of(unsigned e) { return PtAsgn(PTRef{10 + e / 2}, (e & 1) ? l_False : l_True); }
 
-static Solver & setup() {
+// fixed_graph: the end points are concrete (0->1, 1->0, 1->2, 2->1, 0->1, 1->0: vertex 1 shares its lists between several edges,
+// edges 0 and 4 are parallel); otherwise every edge has arbitrary end points
+static Solver & setup(bool fixed_graph = false) {
     Solver & s = rawSolver.s;
     fake_vt[vslot(&TSolver::popBacktrackPoints)] = (void *)&thunk_popN;
     *reinterpret_cast<void ***>(&s) = fake_vt;
@@ -67,7 +71,9 @@ static Solver & setup() {
     new (&s.graphMgr) GM(s.store, s.mapper);
     s.store.vertices = NV;
     for (unsigned e = 0; e < NE; e++) {
-        e_from[e] = nondet_u8() & 3; e_to[e] = nondet_u8() & 3; VASSUME(e_from[e] < NV && e_to[e] < NV && e_from[e] != e_to[e]);
+        static const unsigned ff[6] = {0, 1, 1, 2, 0, 1}, ft[6] = {1, 0, 2, 1, 1, 0};
+        if (fixed_graph) { e_from[e] = ff[e]; e_to[e] = ft[e]; }
+        else { e_from[e] = nondet_u8() & 3; e_to[e] = nondet_u8() & 3; VASSUME(e_from[e] < NV && e_to[e] < NV && e_from[e] != e_to[e]); }
         Edge<SafeInt> & ed = edge_buf[e];
         ed.from = VertexRef{e_from[e]}; ed.to = VertexRef{e_to[e]}; ed.neg = EdgeRef{e ^ 1u}; ed.cost = SafeInt((ptrdiff_t)nondet_i64()); ed.setTime = 0;
         asgns.a[e] = PtAsgn_Undef;
@@ -103,22 +109,29 @@ static void ref_cut(int n) {        // drop everything set at a level > n, keep 
     if (ref_conflict_level > n) ref_conflict_level = -1;
 }
 
+// the lists are compared through the static buffers the vectors point at (the vectors never reallocate: checked)
 static void check_lists(Solver & s) {
     auto & g = s.graphMgr.graph;
+    VASSERT(g.addedEdges._M_impl._M_start == added_buf && s.graphMgr.deductions._M_impl._M_start == ded_buf, "harness: the vectors still use their buffers");
     VASSERT(g.addedEdges.size() == n_added, "addedEdges holds exactly the edges set at the surviving levels");
-    for (unsigned i = 0; i < NE; i++) if (i < n_added && i < g.addedEdges.size()) VASSERT(g.addedEdges[i].x == ref_added[i], "addedEdges keeps the original order");
+    for (unsigned i = 0; i < NE; i++) if (i < n_added) VASSERT(added_buf[i].x == ref_added[i], "addedEdges keeps the original order");
     VASSERT(s.graphMgr.deductions.size() == n_ded, "deductions holds exactly the edges deduced at the surviving levels");
-    for (unsigned i = 0; i < NE; i++) if (i < n_ded && i < s.graphMgr.deductions.size()) VASSERT(s.graphMgr.deductions[i].x == ref_ded[i], "deductions keeps the original order");
-    VASSERT(g.incoming.size() == NV && g.outgoing.size() == NV, "one adjacency list per vertex");
+    for (unsigned i = 0; i < NE; i++) if (i < n_ded) VASSERT(ded_buf[i].x == ref_ded[i], "deductions keeps the original order");
+    VASSERT(g.incoming.size() == NV && g.outgoing.size() == NV && g.incoming._M_impl._M_start == adjIn.v && g.outgoing._M_impl._M_start == adjOut.v, "one adjacency list per vertex");
     for (unsigned v = 0; v < NV; v++) {
-        unsigned ki = 0, ko = 0;
+        unsigned wi[NE], wo[NE], ki = 0, ko = 0;
         for (unsigned i = 0; i < NE; i++) if (i < n_added) {
             unsigned e = ref_added[i];
-            if (e_to[e] == v) { VASSERT(ki < g.incoming[v].size() && g.incoming[v][ki < NE ? ki : 0].x == e, "incoming[v] = the surviving edges into v, original order"); ki++; }
-            if (e_from[e] == v) { VASSERT(ko < g.outgoing[v].size() && g.outgoing[v][ko < NE ? ko : 0].x == e, "outgoing[v] = the surviving edges out of v, original order"); ko++; }
+            if (e_to[e] == v) wi[ki++] = e;
+            if (e_from[e] == v) wo[ko++] = e;
         }
-        VASSERT(g.incoming[v].size() == ki, "incoming[v] holds nothing else");
-        VASSERT(g.outgoing[v].size() == ko, "outgoing[v] holds nothing else");
+        VASSERT(adjIn.v[v]._M_impl._M_start == in_buf[v] && adjOut.v[v]._M_impl._M_start == out_buf[v], "harness: the adjacency vectors still use their buffers");
+        VASSERT(adjIn.v[v].size() == ki, "incoming[v] holds as many edges as survive into v");
+        VASSERT(adjOut.v[v].size() == ko, "outgoing[v] holds as many edges as survive out of v");
+        for (unsigned i = 0; i < NE; i++) {
+            if (i < ki) VASSERT(in_buf[v][i].x == wi[i], "incoming[v] = the surviving edges into v, original order");
+            if (i < ko) VASSERT(out_buf[v][i].x == wo[i], "outgoing[v] = the surviving edges out of v, original order");
+        }
     }
 }
 static void check_edges(Solver & s) {
@@ -132,61 +145,77 @@ static void check_edges(Solver & s) {
     }
 }
 
-extern "C" void h_stp_history() {
-    Solver & s = setup();
+#ifndef MAXDED
+#define MAXDED 1
+#endif
+static bool popped_some, set_after_pop, retracted_after_reuse, popped_conflict, kept_conflict;
+static void op_push(Solver & s) { s.Solver::pushBacktrackPoint(); depth++; }
+// assertLit, third branch: the solver is consistent, neither the edge nor its negation holds yet; the edge is set and
+// findConsequences marks 0..MAXDED edges that do not hold yet as deduced
+static void op_set(Solver & s) {
+    unsigned e = nondet_u8() & 7; VASSUME(e < NE);
+    VASSUME(s.inv_asgn == PtAsgn_Undef && !s.graphMgr.isTrue(EdgeRef{e}) && !s.graphMgr.isTrue(EdgeRef{e ^ 1u}));
+    uint32_t before = s.graphMgr.timestamp;
+    s.graphMgr.setTrue(EdgeRef{e}, lit_of(e));
+    VASSERT(s.graphMgr.timestamp == before + 1 && edge_buf[e].setTime == before + 1, "setTrue stamps the edge with a fresh time");
+    for (unsigned i = 0; i < NE; i++) if (i < n_added) VASSERT(ref_time[ref_added[i]] < before + 1, "a fresh time is later than the time of every edge that holds");
+    for (int j = 0; j < BTCAP; j++) if (j < depth) VASSERT(bt_buf[j] < (size_t)before + 1, "a fresh time is later than every backtrack point on the stack (so popping that point retracts the edge)");
+    ref_level[e] = depth; ref_deduced[e] = false; ref_time[e] = before + 1; ref_added[n_added++] = e;
+    if (popped_some) set_after_pop = true;
+    unsigned nd = nondet_u8() & 3; VASSUME(nd <= MAXDED);
+    for (unsigned j = 0; j < MAXDED; j++) if (j < nd) {
+        unsigned d = nondet_u8() & 7; VASSUME(d < NE && !s.graphMgr.isTrue(EdgeRef{d}));
+        s.graphMgr.setDeduction(EdgeRef{d});
+        ref_level[d] = depth; ref_deduced[d] = true; ref_time[d] = before + 1; ref_ded[n_ded++] = d;
+    }
+}
+static void op_pop(Solver & s) {
+    unsigned k = nondet_u8() & 7; VASSUME((int)k <= depth);
+    bool had_conflict = ref_conflict_level >= 0;
+    if (k == 1 && nondet_bool()) s.Solver::popBacktrackPoint();       // forwards to the virtual popBacktrackPoints(1)
+    else s.Solver::popBacktrackPoints(k);
+    depth -= (int)k;
+    unsigned held = n_added;
+    ref_cut(depth);
+    if (set_after_pop && n_added < held) retracted_after_reuse = true;
+    if (k > 0) popped_some = true;
+    if (had_conflict && ref_conflict_level < 0) popped_conflict = true;
+    if (had_conflict && ref_conflict_level >= 0 && k > 0) kept_conflict = true;
+}
+// assertLit, second branch: the negation of the asserted literal holds -> the solver records the inconsistency
+static void op_conflict(Solver & s) {
+    unsigned e = nondet_u8() & 7; VASSUME(e < NE);
+    VASSUME(s.inv_asgn == PtAsgn_Undef && !s.graphMgr.isTrue(EdgeRef{e}) && s.graphMgr.isTrue(EdgeRef{e ^ 1u}));
+    s.inv_bpoint = s.backtrack_points.size(); s.inv_asgn = lit_of(e); s.has_explanation = true;
+    ref_conflict_level = depth;
+}
+static Solver & history_begin() {
+    Solver & s = setup(true);
     for (unsigned e = 0; e < NE; e++) ref_level[e] = -1;
     n_added = n_ded = 0; ref_conflict_level = -1; depth = 0;
-    bool popped_some = false, set_after_pop = false, retracted_after_reuse = false, popped_conflict = false, kept_conflict = false;
+    popped_some = set_after_pop = retracted_after_reuse = popped_conflict = kept_conflict = false;
+    return s;
+}
+// the state is compared with the reference after the last step only: a step may be popBacktrackPoints(0) / skipped, which does
+// nothing, so every shorter history is covered as well
+static void history_end(Solver & s) {
+    VASSERT(!g_overflow, "harness: buffer capacities suffice");
+    VASSERT(s.backtrack_points.size() == depth && g_base_push - g_base_pop == depth, "one backtrack point (and one base-class point) per open level");
+    VASSERT((s.inv_asgn != PtAsgn_Undef) == (ref_conflict_level >= 0), "the solver is inconsistent iff the violating literal was asserted at a surviving level");
+    VASSERT(s.has_explanation == (ref_conflict_level >= 0), "has_explanation follows the inconsistency");
+    check_edges(s);
+    check_lists(s);
+    VWITNESS("end");
+}
+
+// every history of NOPS steps
+extern "C" void h_stp_history() {
+    Solver & s = history_begin();
     for (int step = 0; step < NOPS; step++) {
         unsigned op = nondet_u8() & 3;
-        if (op == 0) {
-            s.Solver::pushBacktrackPoint();
-            depth++;
-        } else if (op == 1) {
-            // assertLit, third branch: the solver is consistent, neither the edge nor its negation holds yet;
-            // the edge is set and findConsequences marks 0..2 edges that do not hold yet as deduced
-            unsigned e = nondet_u8() & 7; VASSUME(e < NE);
-            VASSUME(s.inv_asgn == PtAsgn_Undef && !s.graphMgr.isTrue(EdgeRef{e}) && !s.graphMgr.isTrue(EdgeRef{e ^ 1u}));
-            uint32_t before = s.graphMgr.timestamp;
-            s.graphMgr.setTrue(EdgeRef{e}, lit_of(e));
-            VASSERT(s.graphMgr.timestamp == before + 1 && edge_buf[e].setTime == before + 1, "setTrue stamps the edge with a fresh time");
-            for (unsigned i = 0; i < NE; i++) if (i < n_added) VASSERT(ref_time[ref_added[i]] < before + 1, "a fresh time is later than the time of every edge that holds");
-            for (int j = 0; j < BTCAP; j++) if (j < depth) VASSERT(s.backtrack_points[j] < (size_t)before + 1, "a fresh time is later than every backtrack point on the stack (so popping that point retracts the edge)");
-            ref_level[e] = depth; ref_deduced[e] = false; ref_time[e] = before + 1; ref_added[n_added++] = e;
-            if (popped_some) set_after_pop = true;
-            unsigned nd = nondet_u8() & 3; VASSUME(nd <= 2);
-            for (unsigned j = 0; j < 2; j++) if (j < nd) {
-                unsigned d = nondet_u8() & 7; VASSUME(d < NE && !s.graphMgr.isTrue(EdgeRef{d}));
-                s.graphMgr.setDeduction(EdgeRef{d});
-                ref_level[d] = depth; ref_deduced[d] = true; ref_time[d] = before + 1; ref_ded[n_ded++] = d;
-            }
-        } else if (op == 2) {
-            unsigned k = nondet_u8() & 7; VASSUME((int)k <= depth);
-            bool had_conflict = ref_conflict_level >= 0;
-            if (k == 1 && nondet_bool()) s.Solver::popBacktrackPoint();       // forwards to the virtual popBacktrackPoints(1)
-            else s.Solver::popBacktrackPoints(k);
-            depth -= (int)k;
-            unsigned held = n_added;
-            ref_cut(depth);
-            if (set_after_pop && n_added < held) retracted_after_reuse = true;
-            if (k > 0) popped_some = true;
-            if (had_conflict && ref_conflict_level < 0) popped_conflict = true;
-            if (had_conflict && ref_conflict_level >= 0 && k > 0) kept_conflict = true;
-        } else {
-            // assertLit, second branch: the negation of the asserted literal holds -> the solver records the inconsistency
-            unsigned e = nondet_u8() & 7; VASSUME(e < NE);
-            VASSUME(s.inv_asgn == PtAsgn_Undef && !s.graphMgr.isTrue(EdgeRef{e}) && s.graphMgr.isTrue(EdgeRef{e ^ 1u}));
-            s.inv_bpoint = s.backtrack_points.size(); s.inv_asgn = lit_of(e); s.has_explanation = true;
-            ref_conflict_level = depth;
-        }
-        VASSERT(!g_overflow, "harness: buffer capacities suffice");
-        VASSERT(s.backtrack_points.size() == depth && g_base_push - g_base_pop == depth, "one backtrack point (and one base-class point) per open level");
-        VASSERT((s.inv_asgn != PtAsgn_Undef) == (ref_conflict_level >= 0), "the solver is inconsistent iff the violating literal was asserted at a surviving level");
-        VASSERT(s.has_explanation == (ref_conflict_level >= 0), "has_explanation follows the inconsistency");
-        check_edges(s);
-        check_lists(s);
+        if (op == 0) op_push(s); else if (op == 1) op_set(s); else if (op == 2) op_pop(s); else op_conflict(s);
     }
-    VWITNESS("end");
+    history_end(s);
     if (set_after_pop) { VWITNESS("edge-set-after-a-pop"); }
 #if NOPS >= 6
     if (retracted_after_reuse) { VWITNESS("edge-set-after-a-pop-is-retracted-by-a-later-pop"); }
@@ -196,11 +225,37 @@ extern "C" void h_stp_history() {
     if (n_ded > 0 && popped_some) { VWITNESS("deduction-survives-or-follows-a-pop"); }
 }
 
+// the histories that are sub-sequences of  push set push set conflict pop(k) push set pop(k)  (every step but the pops optional,
+// k arbitrary): two nested levels popped together or one by one, an edge set after a pop and retracted by the next pop (the
+// timestamp is then ahead of the last edge), an inconsistency retracted or kept
+extern "C" void h_stp_skeleton() {
+    Solver & s = history_begin();
+    if (nondet_bool()) op_push(s);
+    if (nondet_bool()) op_set(s);
+    if (nondet_bool()) op_push(s);
+    if (nondet_bool()) op_set(s);
+    if (nondet_bool()) op_conflict(s);
+    op_pop(s);
+    if (nondet_bool()) op_push(s);
+    if (nondet_bool()) op_set(s);
+    op_pop(s);
+    history_end(s);
+    if (retracted_after_reuse) { VWITNESS("edge-set-after-a-pop-is-retracted-by-a-later-pop"); }
+    if (retracted_after_reuse && n_added > 0) { VWITNESS("an-older-edge-survives-both-pops"); }
+    if (popped_conflict) { VWITNESS("conflict-retracted"); }
+    if (kept_conflict) { VWITNESS("conflict-survives-a-pop"); }
+    if (n_ded > 0 && popped_some) { VWITNESS("deduction-survives-a-pop"); }
+}
+
 // ---------------------------------------------------------------- removeAfter from an arbitrary well-formed state
+#if NE >= 6
 #define NA 4            // at most 4 explicitly set edges
 #define ND 2            // at most 2 deduced edges
+#ifndef RA_FIXED_GRAPH
+#define RA_FIXED_GRAPH false
+#endif
 extern "C" void h_stp_remove_after() {
-    Solver & s = setup();
+    Solver & s = setup(RA_FIXED_GRAPH);
     unsigned na = nondet_u8() & 7, nd = nondet_u8() & 3; VASSUME(na <= NA && nd <= ND && (na > 0 || nd == 0));
     unsigned slot[NA + ND]; uint32_t tm[NA + ND];
     // distinct store slots; explicitly set edges have strictly increasing times >= 1; a deduced edge carries the time of the set
@@ -241,3 +296,4 @@ extern "C" void h_stp_remove_after() {
     if (nd == 2 && n_ded == 1) { VWITNESS("one-of-two-deductions-removed"); }
     if (na == NA && pt >= tm[NA - 1]) { VWITNESS("nothing-removed"); }
 }
+#endif
